@@ -42,6 +42,11 @@ func (t *vhTransport) RoundTrip(req *http.Request) (*http.Response, error) {
 		return nil, errVhTransport
 	}
 	resp := &http.Response{StatusCode: 200, Request: req}
+	// what a real transport reports: the exact body length when the server announced it, -1 when it did not (chunked
+	// or close-delimited responses) - a symbolic value constrained to those two
+	cl := vfInt64("response-content-length")
+	vfAssume(vfOr(cl == -1, cl == int64(len(t.respBody))))
+	resp.ContentLength = cl
 	if t.badBody {
 		resp.Body = vhBadBody{}
 	} else {
